@@ -141,6 +141,7 @@ func (a Keyvault) GetPrivateKey(ctx context.Context, keyName string, version str
 		client:           a.client,
 		timeOut:          a.timeOut,
 		keyName:          keyName,
+		keyVersion:       version,
 		publicKey:        publicKey,
 		signingAlgorithm: signingAlgorithm,
 	}, nil
@@ -232,6 +233,7 @@ type azureSigningKey struct {
 	client           keyVaultClient
 	timeOut          time.Duration
 	keyName          string
+	keyVersion       string
 	publicKey        crypto.PublicKey
 	signingAlgorithm azkeys.SignatureAlgorithm
 }
@@ -247,7 +249,7 @@ func (a azureSigningKey) Sign(_ io.Reader, digest []byte, opts crypto.SignerOpts
 	if opts != nil && opts.HashFunc() == 0 {
 		return nil, errors.New("hashing should've been done")
 	}
-	response, err := a.client.Sign(ctx, a.keyName, "", azkeys.SignParameters{
+	response, err := a.client.Sign(ctx, a.keyName, a.keyVersion, azkeys.SignParameters{
 		Algorithm: to.Ptr(a.signingAlgorithm),
 		Value:     digest,
 	}, nil)
